@@ -19,6 +19,14 @@ Section Dec.
     { apply existsb_exists. exists a. split; [exact X|]. destruct (eqb_spec a a); congruence. }
     congruence.
   Qed.
+  Lemma eqb_refl_true a : eqb a a = true.
+  Proof. destruct (eqb_spec a a); congruence. Qed.
+  Lemma nodup_b_complete l : NoDup l -> nodup_b l = true.
+  Proof.
+    induction 1 as [|a r Ha ND IH]; cbn; [reflexivity|]. rewrite IH, andb_true_r. apply negb_true_iff.
+    destruct (existsb (eqb a) r) eqn:E; [|reflexivity]. exfalso. apply existsb_exists in E. destruct E as [y [Hy Ey]].
+    destruct (eqb_spec a y); [subst; contradiction|discriminate].
+  Qed.
 End Dec.
 
 Lemma pos_spec a b : reflect (a = b) (Pos.eqb a b).
@@ -42,6 +50,16 @@ Section DecDL.
     - intros i Hin. rewrite forallb_forall in H4. specialize (H4 _ Hin). apply existsb_exists in H4.
       destruct H4 as [[k v] [Hkv E]]. cbn in E. apply andb_true_iff in E. destruct E as [A B].
       destruct (eqb_spec k (name i)); [|discriminate]. apply Pos.eqb_eq in B. subst. exact Hkv.
+  Qed.
+  Lemma dl_b_complete name l d : DL name l d -> dl_b name l d = true.
+  Proof.
+    intro D. unfold dl_b. rewrite !andb_true_iff. repeat split.
+    - apply (nodup_b_complete Pos.eqb pos_spec). apply D.
+    - apply (nodup_b_complete eqb eqb_spec). apply D.
+    - apply forallb_forall. intros [k i] Hin. cbn. destruct (dl_sound _ _ _ D k i Hin) as [A B].
+      apply andb_true_iff. split; [apply mem_In; exact A|]. rewrite B. apply (eqb_refl_true eqb eqb_spec).
+    - apply forallb_forall. intros i Hin. apply existsb_exists. exists (name i, i). split; [apply D; exact Hin|]. cbn.
+      rewrite (eqb_refl_true eqb eqb_spec), Pos.eqb_refl. reflexivity.
   Qed.
 End DecDL.
 
@@ -88,3 +106,25 @@ Proof.
   - intros i Hi. apply Pos.ltb_lt. apply H9. exact Hi.
   - intros j Hj. apply Pos.ltb_lt. apply H10. exact Hj.
 Qed.
+
+(** ... and complete: the test decides the invariant *)
+Theorem inv_b_complete g : Inv g -> inv_b g = true.
+Proof.
+  intro I. unfold inv_b. rewrite !andb_true_iff. repeat split.
+  - apply (dl_b_complete str_eqb str_spec). apply I.
+  - apply (dl_b_complete str_eqb str_spec). apply I.
+  - apply (dl_b_complete key2_eqb key2_spec). apply I.
+  - apply forallb_forall. intros j Hj. destruct (i_ends g I j Hj) as [A B]. apply andb_true_iff. rewrite !mem_In. auto.
+  - apply forallb_forall. intros i Hi. apply andb_true_iff. split; apply forallb_forall.
+    + intros k Hk. destruct (proj1 (i_back g I i Hi k) Hk) as [j [Hj [Kj Mj]]]. apply existsb_exists. exists j. split; [exact Hj|].
+      apply andb_true_iff. split; [destruct (key2_spec (ckey g j) k); congruence|apply mentions_spec; exact Mj].
+    + intros j Hj. destruct (mentions g j i) eqn:M; [|reflexivity]. cbn. apply set_mem_In. apply (i_back g I i Hi).
+      exists j. split; [exact Hj|]. split; [reflexivity|apply mentions_spec; exact M].
+  - apply forallb_forall. intros i Hi. apply smem_In. apply (i_rock g I). exact Hi.
+  - apply forallb_forall. intros i Hi. apply Pos.ltb_lt. apply (i_brfresh g I). exact Hi.
+  - apply forallb_forall. intros j Hj. apply Pos.ltb_lt. apply (i_rfresh g I). exact Hj.
+  - apply forallb_forall. intros i Hi. apply Pos.ltb_lt. apply (i_bfresh g I). exact Hi.
+  - apply forallb_forall. intros j Hj. apply Pos.ltb_lt. apply (i_cfresh g I). exact Hj.
+Qed.
+Corollary inv_b_iff g : inv_b g = true <-> Inv g.
+Proof. split; [apply inv_b_sound|apply inv_b_complete]. Qed.
